@@ -361,7 +361,7 @@ func init() {
 	Register(&Engine{
 		ID:       "C10",
 		Anchors:  []string{"tree.go:URL", "syntax.go:Interceptors.URL", "segment.go:Segment.Valid", "router.go:URL", "mux.go:URL"},
-		Cases:    func(t string) int { return map[string]int{"quick": 3000, "thorough": 80000}[t] },
+		Cases:    func(t string) int { return map[string]int{"quick": 10000, "thorough": 600000}[t] },
 		Run:      runC10,
 		Directed: c10Directed,
 		Rule: "case = router (random interceptor set and URL domain) with a table reached by a Handle/Remove history; 60 URL calls over pattern classes {live, dead, prefix-of-live, malformed x4, fresh} x params classes {all present, empty, one missing, extras} x tricky values x strict, through mux.URL, Router.URL, Prefix.URL, Resource.URL; plus 40 dispatches whose (pattern, captured params) must rebuild the request path; " +
